@@ -251,3 +251,32 @@ func inCutset(c byte, cutset string) bool {
 //@ requires dec != nil && uo != nil
 //@ modifies everything
 //@ ensures one-value: result == nil ==> export.Decoder(dec).Tokens.Depth() == old(export.Decoder(dec).Tokens.Depth()) && export.Decoder(dec).Tokens.Last.Length() == old(export.Decoder(dec).Tokens.Last.Length())+1
+
+// ---------------------------------------------------------------- intern.go
+
+//@ extern bits.RotateLeft32(x uint32, k int) (result uint32)
+//@ trusted math/bits: pure
+
+//@ extern binary.(littleEndian).Uint16(b []byte) (result uint16)
+//@ trusted encoding/binary: pure; reads b[0:2]
+//@ requires len(b) >= 2
+
+//@ extern binary.(littleEndian).Uint32(b []byte) (result uint32)
+//@ trusted encoding/binary: pure; reads b[0:4]
+//@ requires len(b) >= 4
+
+//@ extern binary.(littleEndian).Uint64(b []byte) (result uint64)
+//@ trusted encoding/binary: pure; reads b[0:8]
+//@ requires len(b) >= 8
+
+//@ func hash64
+//@ property C03 C20
+//@ ensures true
+
+// makeString returns a string equal to string(b) whatever the cache holds and
+// whatever the hash: the cache can only substitute an equal string.
+//
+//@ func makeString
+//@ property C03 C18 C20
+//@ modifies *c
+//@ ensures equal: result == string(b)
